@@ -167,6 +167,20 @@ pub fn gen_module(rng: &mut Rng, with_cfg: bool) -> Module {
     Module { abi: gen_abi(rng, 1, 3), attrs: if with_cfg { gen_attrs(rng, 1, 8, false, "") } else { vec![] }, types }
 }
 
+/// `name` occurs in `text` as a whole identifier
+pub fn contains_word(text: &str, name: &str) -> bool {
+    let mut from = 0;
+    while let Some(i) = text[from..].find(name) {
+        let s = from + i;
+        let e = s + name.len();
+        let before = text[..s].chars().next_back().map(is_ident_char).unwrap_or(false);
+        let after = text[e..].chars().next().map(is_ident_char).unwrap_or(false);
+        if !before && !after { return true; }
+        from = e;
+    }
+    false
+}
+
 fn is_ident_char(c: char) -> bool {
     c.is_alphanumeric() || c == '_'
 }
@@ -264,6 +278,10 @@ pub fn backend_symbols(target: &str, files: &std::collections::BTreeMap<String, 
                         if inside {
                             out.extend(after_all(l, "fun ", |c| !is_ident_char(c)));
                         }
+                    }
+                    // the call sites: `lib.NAME(` (methods, destructors in cleaners and in finalizers)
+                    for pre in [" lib.", "(lib.", "=lib.", "\tlib."] {
+                        out.extend(after_all(text, pre, |c| !is_ident_char(c)).into_iter().filter(|n| text.contains(&format!("lib.{n}("))));
                     }
                 }
             }
@@ -436,6 +454,18 @@ pub fn main(args: &[String]) {
                             Err(e) => {
                                 rep.disagree(l, "macro-expansion-failed", e, &mex);
                                 rep.oracle_fail(l, "the proc-macro expansion of an accepted module does not compile, so nothing is exported", json!({"rustc": e, "source": src}));
+                            }
+                        }
+                    }
+                    // Kotlin has two ways of releasing an opaque (Cleaner / finalize()), chosen by configuration
+                    if t == "kotlin" && mi % 2 == 0 {
+                        let cfg = tool::config_from(&[("lib_name", toml::Value::String("somelib".into())), ("kotlin.domain", toml::Value::String("dev.diplomattest".into())), ("kotlin.use_finalizers_not_cleaners", toml::Value::Boolean(true))]);
+                        let of = tool::run_backend_cfg(src, t, cfg);
+                        if of.ok() {
+                            rep.count("kotlin:finalizers");
+                            let used = backend_symbols(t, &of.files).into_iter().collect::<Vec<_>>().join(",");
+                            if used != mus {
+                                rep.disagree(l, "backend-symbol-uses[kotlin.use_finalizers_not_cleaners]", &used, &mus);
                             }
                         }
                     }
